@@ -283,7 +283,7 @@ fn exec_step(gi: usize, t: usize, s: &Value, guards: &mut Vec<dispatch::DefaultG
     HIST.lock().unwrap().push(h);
 }
 
-const TARGETS: [&str; 7] = ["app", "app::db", "hyper::proto", "hyper", "other crate", "tokio::net", ""];
+const TARGETS: [&str; 11] = ["app", "app::db", "app::zeta", "app_neighbour", "hyper::proto", "hyper::proto::h2", "hyper::zz", "hyper", "other crate", "tokio::net", ""];
 
 impl Engine for LogEngine {
     fn name(&self) -> &'static str {
@@ -311,7 +311,7 @@ impl Engine for LogEngine {
             for i in 0..n {
                 let t = rng.below(nthreads);
                 if i == install_at {
-                    let ignore: Vec<&str> = (0..rng.below(4)).map(|_| *rng.pick(&["hyper", "tokio", "app::db", "other"])).collect();
+                    let ignore: Vec<&str> = (0..rng.below(4)).map(|_| *rng.pick(&["hyper", "hyper::proto", "tokio", "app", "app::db", "other"])).collect();
                     steps.push(json!({"t": t, "op": "install_tracer", "max": rng.range(2, 5), "ignore": ignore, "ignore_how": rng.below(4)}));
                 }
                 if created == 0 || (created < 3 && rng.chance(1, 6)) {
@@ -337,10 +337,16 @@ impl Engine for LogEngine {
         } else {
             let install_at = rng.below(3);
             let first_collector_at = rng.range(2, n + 2);
+            let failed_tracer_at = if rng.chance(1, 3) { rng.range(1, n) } else { u64::MAX };
             for i in 0..n {
                 let t = rng.below(nthreads);
                 if i == install_at {
                     steps.push(json!({"t": t, "op": "install_logger", "max": rng.range(1, 5)}));
+                }
+                // a later attempt to install the log->tracing bridge fails (a logger exists) and must leave
+                // the log crate's state alone
+                if i == failed_tracer_at && i > install_at {
+                    steps.push(json!({"t": t, "op": "install_tracer", "max": rng.range(0, 5), "ignore": []}));
                 }
                 if i == first_collector_at {
                     steps.push(json!({"t": t, "op": "new", "k": 0, "thr": 5, "prefixes": []}));
